@@ -299,11 +299,11 @@ Section C06.
      exists l, so_link s = Some l /\ st' = put sk st (skey sk l) (concat chunks)).
   Proof.
     intros C E M. unfold LinkSys.store, LinkSys.compute. rewrite C, E.
-    destruct (negb (hasher_ok _)); [intros X [S|S]; inversion X; subst; discriminate|].
-    destruct (w_open_err w); [intros X [S|S]; inversion X; subst; discriminate|].
+    destruct (negb (hasher_ok _)); [intros X [S|S]; inversion X; subst; cbn in S; discriminate|].
+    destruct (w_open_err w); [intros X [S|S]; inversion X; subst; cbn in S; discriminate|].
     destruct (write_all _ _ _ _ _ _ _ _) as [[[wr hs] ee] la] eqn:W.
-    destruct ee; [intros X [S|S]; inversion X; subst; discriminate|]. cbn [orb].
-    destruct (latch && la) eqn:L; [intros X [S|S]; inversion X; subst; discriminate|].
+    destruct ee; [intros X [S|S]; inversion X; subst; cbn in S; discriminate|]. cbn [orb].
+    destruct (latch && la) eqn:L; [intros X [S|S]; inversion X; subst; cbn in S; discriminate|].
     destruct (write_all_clean _ _ _ _ _ _ _ _ _ _ M W L) as [-> ->].
     destruct (build_link _ _) as [l|]; [|intros X [S|S]; inversion X; subst; discriminate].
     destruct (w_commit_err w); intros X S; inversion X; subst; cbn; repeat split; auto.
@@ -317,7 +317,7 @@ Section C06.
     encoders (lp_codec lp) = Some c -> hasher_ok (lp_mhtype lp) = true -> w_open_err w = false ->
     latch || negb (c_werr_ignored c) = true ->
     c_enc c v = Some chunks -> w_cap w = Some k -> k < lenN (concat chunks) ->
-    store latch sk w st lp v = (sfail EIo, st).
+    store latch sk w st lp v = (sfail (wfail_class w chunks), st).
   Proof.
     intros C H O M E K L. unfold LinkSys.store. rewrite C, H, O, E, K. cbn [negb].
     destruct (write_all _ _ _ _ _ _ _ _) as [[[wr hs] ee] la] eqn:W.
@@ -342,8 +342,8 @@ Section C06.
       destruct (store_commits_whole latch sk w st lp v c _ s st' C E M S (or_introl Sok)) as (_ & _ & Hput).
       clear Hput. revert S. unfold LinkSys.store. rewrite C, H, O, E, K. cbn [negb].
       destruct (write_all _ _ _ _ _ _ _ _) as [[[wr hs] ee] la] eqn:W.
-      destruct ee; [intros X; inversion X; subst; discriminate|]. cbn [orb].
-      destruct (latch && la) eqn:LL; [intros X; inversion X; subst; discriminate|]. intros _.
+      destruct ee; [intros X; inversion X; subst; cbn in *; discriminate|]. cbn [orb].
+      destruct (latch && la) eqn:LL; [intros X; inversion X; subst; cbn in *; discriminate|]. intros _.
       (* a clean run contradicts the scheduled failure *)
       clear - M W LL F. revert wr hs F W. generalize (w_sched w) as sched. generalize 0 as used.
       intros used sched; revert sched used.
